@@ -29,6 +29,14 @@
  *           C01.bp.fail_stop     an environment failure is returned
  *           terminates           (decreases clauses)
  */
+/* block size = 2^BS_LOG; positions are split with shifts and masks (a 64 bit
+ * division circuit per clause makes the SAT problem needlessly hard) */
+#ifndef BS_LOG
+#define BS_LOG 12
+#endif
+#define BS (1u << BS_LOG)
+#define P_IDX(p) ((sqfs_u64)(p) >> BS_LOG)
+#define P_OFF(p) ((sqfs_u64)(p) & (BS - 1))
 #include "C08/bp_env.h"
 
 #ifndef HAVE_CUR
@@ -69,7 +77,7 @@ static void copy_pre(void *dst, size_t n)
 	VERIF_ASSERT(g_live && g_p.proc.blk_current == &g_blk.b,
 		     "C01.bp.bytes_in_order");
 	VERIF_ASSERT(n > 0 && n <= g_size0 - g_done, "C01.bp.bytes_in_order");
-	VERIF_ASSERT(g_blk.b.index == p / BS && g_blk.b.size == p % BS &&
+	VERIF_ASSERT(g_blk.b.index == P_IDX(p) && g_blk.b.size == P_OFF(p) &&
 		     dst == (void *)(g_blk.b.data + g_blk.b.size) &&
 		     n <= BS - g_blk.b.size, "C01.bp.bytes_in_order");
 	VERIF_ASSERT(VERIF_W_OK(dst, n), "C01.bp.append_safe");
@@ -123,7 +131,7 @@ int stub_submit(thread_pool_t *pool, void *item)
 	VERIF_ASSERT(pool == &g_pool && item == (void *)&g_blk.b && g_live,
 		     "C01.bp.blocks_full");
 	VERIF_ASSERT(g_blk.b.size == BS &&
-		     g_blk.b.index == g_pos0 / BS + g_submitted &&
+		     g_blk.b.index == P_IDX(g_pos0) + g_submitted &&
 		     g_blk.b.inode == g_inode_arg,
 		     "C01.bp.blocks_full");
 	VERIF_ASSERT((g_blk.b.flags & ~(sqfs_u32)SQFS_BLK_FIRST_BLOCK) == g_user_flags,
@@ -240,12 +248,12 @@ void harness(void)
 	g_p.proc.blk_current = &g_blk.b;
 	g_p.proc.blk_flags = g_user_flags;
 	g_live = 1;
-	g_pos0 = (sqfs_u64)(index0 - 1) * BS + fill0;
+	g_pos0 = ((sqfs_u64)(index0 - 1) << BS_LOG) + fill0;
 #else
 	g_p.proc.blk_current = NULL;
 	g_p.proc.blk_flags = g_user_flags | (index0 == 0 ? SQFS_BLK_FIRST_BLOCK : 0);
 	g_live = 0;
-	g_pos0 = (sqfs_u64)index0 * BS;
+	g_pos0 = (sqfs_u64)index0 << BS_LOG;
 #endif
 	g_p.proc.blk_index = index0;
 
@@ -277,17 +285,17 @@ void harness(void)
 		VERIF_ASSERT(g_done == g_size0, "C01.bp.bytes_in_order");
 		VERIF_ASSERT(g_p.proc.stats.input_bytes_read == g_read0 + g_size0,
 			     "C01.bp.bytes_in_order");
-		VERIF_ASSERT(g_submitted == pend / BS - g_pos0 / BS,
+		VERIF_ASSERT(g_submitted == P_IDX(pend) - P_IDX(g_pos0),
 			     "C01.bp.blocks_full");
-		if (pend % BS == 0) {
+		if (P_OFF(pend) == 0) {
 			VERIF_ASSERT(g_p.proc.blk_current == NULL && !g_live &&
-				     g_p.proc.blk_index == pend / BS,
+				     g_p.proc.blk_index == P_IDX(pend),
 				     "C01.bp.blocks_full");
 		} else {
 			VERIF_ASSERT(g_p.proc.blk_current == &g_blk.b && g_live &&
-				     g_blk.b.index == pend / BS &&
-				     g_blk.b.size == pend % BS &&
-				     g_p.proc.blk_index == pend / BS + 1 &&
+				     g_blk.b.index == P_IDX(pend) &&
+				     g_blk.b.size == P_OFF(pend) &&
+				     g_p.proc.blk_index == P_IDX(pend) + 1 &&
 				     g_blk.b.inode == g_inode_arg,
 				     "C01.bp.blocks_full");
 		}
@@ -296,7 +304,7 @@ void harness(void)
 	VERIF_COVER(ret == 0 && g_size0 == 0);
 	VERIF_COVER(ret == 0 && g_submitted >= 3);
 	VERIF_COVER(ret == 0 && g_data0 == NULL && g_size0 > 0);
-	VERIF_COVER(ret == 0 && pend % BS == 0 && g_size0 > 0);
+	VERIF_COVER(ret == 0 && P_OFF(pend) == 0 && g_size0 > 0);
 	VERIF_COVER(ret == 0 && g_deq_calls > 0);
 	VERIF_COVER(ret != 0);
 }
